@@ -276,6 +276,10 @@ RULE = ("timeout (timer firing) or cancel_run arriving at every quiescent point 
         "entered after the cancel tick, ctx.to_dict() works and the resumed run completes with the reference "
         "result - also when the resumed run is itself cancelled at any point and resumed a second time; in the timeout_busy programs one tick keeps the loop busy until after the next scheduled wake-up (the timeout must then be acted on as soon as the loop is free); in the *_hang programs the running steps "
         "block for good from an explorer-chosen point on, and the (fresh or resumed) run with a timeout must then end with WorkflowTimeoutError; non-trivial = at least one schedule deviation")
+from vmc.tables import _ROUND6 as _R6  # noqa: E402
+
+RULE += _R6["C31"]
+
 
 
 def run(tier: str, seed: int) -> Any:
